@@ -15,7 +15,7 @@ Definition sc_reader_ws_close_is_eof : bool := true.
 Definition sc_negotiator_records_ws : bool := true.
 
 (* ---- session.go: calls that can block inside a critical section of the state mutex ---- *)
-Definition sc_statelock_blocking_calls : list bytes := [].
+Definition sc_statelock_blocking_calls : list bytes := [hex "53657373696f6e2e636c6f736553657373696f6e3a20436c6f7365" (* Session.closeSession: Close *)].
 
 (* ---- session.go: who takes the output lock, and who of them tests the closed bit after taking it ---- *)
 Definition sc_out_lockers : list bytes := [hex "53657373696f6e2e436c6f7365" (* Session.Close *); hex "53657373696f6e2e456e636f6465" (* Session.Encode *); hex "53657373696f6e2e456e636f6465456c656d656e74" (* Session.EncodeElement *); hex "53657373696f6e2e546f6b656e577269746572" (* Session.TokenWriter *); hex "53657373696f6e2e73656e644572726f72" (* Session.sendError *); hex "73656e64" (* send *)].
